@@ -54,6 +54,9 @@ CONFIGS = [
     # two connections: their writers encode at the same time (queueing thread i serves connection i % 2)
     {"name": "2conns-1each", "threads": [1, 1], "plan": [40], "bad": None, "conns": 2},
     {"name": "2conns-2each", "threads": [2, 2], "plan": [9, ["soft", errno.EAGAIN], 120], "bad": None, "conns": 2},
+    # a first message of more than 64 KiB towards a peer that does not read for a while: the later ones queue up behind it
+    {"name": "big-first-slow-peer", "threads": [4], "plan": [["soft", errno.EAGAIN]] * 8 + [4096, ["soft", errno.EAGAIN], 70000], "bad": None, "big": 0},
+    {"name": "big-second-slow-peer", "threads": [2, 2], "plan": [20, ["soft", errno.EAGAIN], ["soft", errno.EAGAIN], ["soft", errno.EAGAIN], 66000], "bad": None, "big": 1},
 ]
 
 
@@ -125,6 +128,8 @@ def run_schedule(cfg, decisions=None, rng=None, p=0.0, maxr=0):
                 m.header.end_to_end_identifier = 0xd000 + k
                 m.origin_host = b"node.example"
                 m.origin_realm = b"example" + bytes([0x61 + k]) * (k * 3)      # different lengths
+                if cfg.get("big") == k:
+                    m.origin_realm = b"big." + bytes([0x61 + k]) * 70000
                 if cfg["bad"] == k:
                     # cannot be encoded: by a codec error, or by any other failure inside as_bytes()
                     kind_ = cfg.get("bad_kind", "attr-type")
